@@ -58,6 +58,9 @@ func ovScripts(c *Cfg, f string, slots []string) []Node {
 	return nodes
 }
 
+// repoDir is the checkout under test (its internal/sign/testdata holds the test keys); set from --repo.
+var repoDir = "/repo"
+
 func systematicPkgCases(id *int, profile, scratch string, rng *rand.Rand, tier string) []*PkgCase {
 	var out []*PkgCase
 	add := func(c *Cfg, nodes []Node, sub string) {
@@ -188,6 +191,12 @@ func systematicPkgCases(id *int, profile, scratch string, rng *rand.Rand, tier s
 			c := baseCfg("chlogpkg")
 			c.Changelog = []ChEntry{{"1.2.3", 1500000000, "Jane Doe <jane@example.org>", []string{"first line\nsecond line of the same note\nthird", "single"}}}
 			add(c, smallTree(), "changelog-multiline")
+		}
+		{ // a changelog file that has no entries (yet)
+			c := baseCfg("chlogemptypkg")
+			c.Changelog = []ChEntry{}
+			c.Entries = []Entry{plain}
+			add(c, smallTree(), "changelog-empty")
 		}
 		for _, v := range []string{"1.2.3-RC.1+Build.7", "1.2.3+git-0a1b2c3", "V1.2.3-rc1", "1.2.3-Beta"} {
 			c := baseCfg("casepkg")
@@ -373,6 +382,37 @@ func systematicPkgCases(id *int, profile, scratch string, rng *rand.Rand, tier s
 			c := baseCfg("fstreepkg")
 			c.Entries = []Entry{{Type: "tree", Src: "src/sub", Dst: d, Fi: Fi{Owner: "app", Group: "app"}, HasFi: true}}
 			add(c, smallTree(), "tree-fsowned")
+		}
+		{ // a changelog file that has no entries (yet): the package is still a well-formed archive
+			c := baseCfg("chlogemptypkg")
+			c.Changelog = []ChEntry{}
+			c.Entries = []Entry{plain}
+			add(c, smallTree(), "changelog-empty")
+		}
+		// signed packages are archives too: the signature member / segment / header in its place, everything else as before
+		for variant := 0; variant < 7; variant++ {
+			c := baseCfg("signedpkg")
+			td := repoDir + "/internal/sign/testdata/"
+			switch variant {
+			case 0:
+				c.DebSigKey = td + "privkey_unprotected.asc"
+			case 1:
+				c.DebSigKey, c.DebSigType = td+"privkey_unprotected.asc", "maint"
+			case 2:
+				c.DebSigKey, c.DebSigMethod = td+"privkey_unprotected.asc", "dpkg-sig"
+			case 3:
+				c.RpmSigKey = td + "privkey_unprotected.asc"
+			case 4:
+				c.ApkSigKey = td + "rsa_unprotected.priv"
+			case 5:
+				c.ApkSigKey, c.ApkSigKeyName = td+"rsa_unprotected.priv", "origin"
+			case 6:
+				c.DebSigKey, c.RpmSigKey, c.ApkSigKey = td+"privkey_unprotected.asc", td+"privkey_unprotected.asc", td+"rsa_unprotected.priv"
+				c.DebCompression = "xz"
+			}
+			c.Entries = []Entry{plain, {Type: "config", Src: "src/app.conf", Dst: "/etc/signedpkg/app.conf"}, {Type: "tree", Src: "src/sub", Dst: "/usr/share/signedpkg"}}
+			nodes := append(smallTree(), addScripts(rng, c, []string{"postinstall", "preremove"})...)
+			add(c, nodes, "signed")
 		}
 		// a directory the configuration DECLARES is shipped as declared, also at a path the distribution owns
 		for _, d := range []string{"/var/cache", "/usr/local/bin", "/opt", "/etc", "/usr/share/doc"} {
